@@ -61,8 +61,8 @@ def main():
     ap.add_argument("--round", type=int, default=1, help="2: read /tmp/wt/out2 and store variants A,B as C,D")
     a = ap.parse_args()
     global OUT
-    if a.round == 2:
-        OUT = "/tmp/wt/out2"
+    if a.round >= 2:
+        OUT = "/tmp/wt/out%d" % a.round
     only = set(a.only.split(",")) if a.only else None
     os.makedirs(SEEDED, exist_ok=True)
     summary = []
@@ -71,7 +71,7 @@ def main():
             src_dir = os.path.join(OUT, prop, variant)
             if not os.path.isfile(os.path.join(src_dir, "patch.diff")) or not os.path.isfile(os.path.join(src_dir, "demo.py")):
                 continue
-            sid = f"{prop}-{variant}" if a.round == 1 else f"{prop}-{dict(A='C', B='D').get(variant, variant + '2')}"
+            sid = f"{prop}-{variant}" if a.round == 1 else f"{prop}-{(dict(A='C', B='D') if a.round == 2 else dict(A='E', B='F')).get(variant, variant + str(a.round))}"
             if only and sid not in only:
                 continue
             dst = os.path.join(SEEDED, sid)
@@ -95,7 +95,7 @@ def main():
                 meta.update({
                     "id": sid, "property": prop, "summary": agent_meta.get("summary"), "needs": agent_meta.get("needs"),
                     "files": agent_meta.get("files"), "why_tests_pass": agent_meta.get("why_tests_pass"),
-                    "origin": "independent sub-agent given only the property text and its own scratch worktree" + (" (second round, on the repaired tree)" if a.round == 2 else ""),
+                    "origin": "independent sub-agent given only the property text and its own scratch worktree" + ({2: " (second round, on the repaired tree)", 3: " (third round, on the repaired tree)"}.get(a.round, "")),
                     "rebased_on": sh("git -C /repo rev-parse --short HEAD").stdout.strip(),
                     "demo_on_current_tree": {"exit": rc0, "last_line": out0},
                     "demo_with_patch": {"exit": rc1, "last_line": out1},
